@@ -445,6 +445,8 @@ def c02(req, ra, ctr):
 def c08(req, ra, ctr):
     """provenance of an algebra result whose inputs carry default sources"""
     op = req[0]
+    if op.startswith('rt:'):
+        return rt_problems(req, ra)
     if op not in ('merge', 'embed', 'mask', 'maskp', 'forwards') or ra[0] != 'ok':
         return []
     ds = inputs_of(req)
